@@ -20,6 +20,16 @@ HEAPS = {0: "FixedSizeHeap(24)", 1: "FixedSizeHeap(8)", 2: "FixedSizeHeap(100)",
 
 
 def run(ev, vd):
+    # implementation-shaped models of the two allocators with non-trivial concurrent / splitting logic (with mutants)
+    for mod in ("PagePool", "PerBackend"):
+        for cfg in [mod + ".cfg"] + ([mod + "_thorough.cfg"] if tier() == "thorough" else []):
+            r = tlc(os.path.join(SP, mod + ".tla"), cfg=os.path.join(SP, cfg), workers=NCPU, timeout=3000, heap="16g")
+            ev.add_tlc(cfg, r)
+            if not r.ok:
+                raise ToolError("%s (%s) violates %s:\n%s" % (mod, cfg, r.violation, r.out[-1500:]))
+        r = tlc(os.path.join(SP, mod + ".tla"), cfg=os.path.join(SP, mod + "_mutant.cfg"), workers=NCPU, timeout=900)
+        if r.ok:
+            raise ToolError("%s does not distinguish its mutant (vacuous model?)" % mod)
     make(fbin("alloc"), cbin("alloc"))
     # pts: per-thread storage with an exhausted page (own process: the page stays exhausted); ctlpage: the page pool under
     # controlled schedules (flavour C)
@@ -70,7 +80,7 @@ def run(ev, vd):
                      "block / null / corrupted / leaked)" % (heap, rs["mode"], rs["threads"], json.dumps(last)), dict(reset=rs, execution=exn[-200:]))
     ev.assumptions += ["NUMA node placement is not observable here (single node)", "page-pool pages carry a canary in their first 4 KB only",
                        "per-iteration allocations inside for_each are checked in C02's harness", "real schedules of the concurrent mixes are sampled"]
-    ev.cov["engines"] = ["seqreplay", "free", "tv"]
+    ev.cov["engines"] = ["mc", "seqreplay", "free", "ctl", "tv"]
 
 
 def replay(path):
